@@ -13,6 +13,7 @@
 -/
 import Tsg.Proofs.Prog
 import Tsg.Sem.Lazy
+import Tsg.Props.C05
 
 namespace C02
 
@@ -83,5 +84,22 @@ def C02_full (Fragment : File → Prop) (Iso : CGraph → CGraph → Prop) : Pro
     let s := Strict.run file tree oracle globals none none none none fuel ms {}
     let l := Lazy.run file tree oracle globals none none none none fuel ef merged {}
     s.outcome = none → l.outcome = none ∧ Iso s.graph l.graph
+
+/-- **Neither mode panics where the other reports an error** — because neither mode panics at all: for EVERY text, if
+loading it yields a file, then executing that file strictly and executing it lazily both end in a graph or an error,
+never at a panic site, for every tree, oracle, set of globals, debug configuration, cancellation flag, fuels and
+initial graph, under tree-sitter's contracts on the matches each mode is given and the caller's contract on graph-node
+globals (corollary of `C05_load_then_strict_never_panics` and `C05_load_then_lazy_never_panics`). -/
+theorem C02_neither_mode_panics (o : POracle) (nullable : String → Option Bool) (text : String) (file : File)
+    (hload : Loader.load o nullable text = .loaded file)
+    (tree : Tree) (oracle : Oracle) (globals : GlobalsM) (la va ma : Option String)
+    (cancelAt : Option Nat) (fuel ef : Nat) (ms : List (List QMatch)) (merged : List QMatch) (g0 : CGraph)
+    (ht : StrictSafe.TreeOK tree) (hg : StrictSafe.GlobalsWf g0.nodes.length globals)
+    (hms : ∀ p ∈ file.stanzas.zip ms, ∀ m ∈ p.2, StrictSafe.MatchOK tree p.1 m)
+    (hm : ∀ m ∈ merged, LazySafe.MergedOK tree file.stanzas m) (site : String) :
+    (Strict.run file tree oracle globals la va ma cancelAt fuel ms g0).outcome ≠ some (.panic site) ∧
+    (Lazy.run file tree oracle globals la va ma cancelAt fuel ef merged g0).outcome ≠ some (.panic site) :=
+  ⟨C05.C05_load_then_strict_never_panics o nullable text file hload tree oracle globals la va ma cancelAt fuel ms g0 ht hg hms site,
+   C05.C05_load_then_lazy_never_panics o nullable text file hload tree oracle globals la va ma cancelAt fuel ef merged g0 ht hg hm site⟩
 
 end C02
